@@ -74,7 +74,7 @@ func (r *BufferReader) ReadWire(l int) (Wire, error) {
 	if r.pos >= len(r.buf) && l > 0 {
 		return nil, io.EOF
 	}
-	if r.pos+l > len(r.buf) {
+	if l < 0 || l > len(r.buf)-r.pos {
 		return nil, io.ErrUnexpectedEOF
 	}
 	p := r.pos
@@ -83,7 +83,7 @@ func (r *BufferReader) ReadWire(l int) (Wire, error) {
 }
 
 func (r *BufferReader) ReadBuf(l int) (Buffer, error) {
-	if r.pos+l > len(r.buf) {
+	if l < 0 || l > len(r.buf)-r.pos {
 		return nil, io.ErrUnexpectedEOF
 	}
 	p := r.pos
@@ -107,7 +107,7 @@ func (r *BufferReader) Range(start, end int) Wire {
 }
 
 func (r *BufferReader) Delegate(l int) ParseReader {
-	if l < 0 || r.pos+l > len(r.buf) {
+	if l < 0 || l > len(r.buf)-r.pos {
 		return NewBufferReader([]byte{})
 	}
 	subBuf := r.buf[r.pos : r.pos+l]
@@ -173,6 +173,9 @@ func (r *WireReader) ReadWire(l int) (Wire, error) {
 	if !r.nextSeg() && l > 0 {
 		return nil, io.EOF
 	}
+	if l < 0 || l > r.Length()-r.Pos() {
+		return nil, io.ErrUnexpectedEOF
+	}
 	ret := make(Wire, 0, len(r.wire)-r.seg)
 	for l > 0 {
 		if r.seg >= len(r.wire) {
@@ -198,6 +201,9 @@ func (r *WireReader) ReadBuf(l int) (Buffer, error) {
 			return nil, io.ErrUnexpectedEOF
 		}
 		return Buffer{}, nil
+	}
+	if l < 0 || l > r.Length()-r.Pos() {
+		return nil, io.ErrUnexpectedEOF
 	}
 	if r.pos+l <= len(r.wire[r.seg]) {
 		p := r.pos
@@ -279,7 +285,7 @@ func (r *WireReader) Skip(n int) error {
 }
 
 func (r *WireReader) Delegate(l int) ParseReader {
-	if l < 0 || r.seg >= len(r.wire) {
+	if l < 0 || r.seg >= len(r.wire) || l > r.Length()-r.Pos() {
 		return NewBufferReader([]byte{})
 	}
 	if r.pos+l <= len(r.wire[r.seg]) {
